@@ -45,7 +45,9 @@ BigSpecs ==
       : k \in {5, 6, 5 + dl - 1, 5 + dl, 5 + dl + 2} }
     : ct \in {20, 22, 23, 255}, dl \in {16639, 16640, 16641, 65535} }
 
-Specs == SetToSeq(SmallSpecs \cup LyingSpecs \cup BigSpecs)
+SpecsDef == SetToSeq(SmallSpecs \cup LyingSpecs \cup BigSpecs)
+ASSUME TLCSet(1, SpecsDef)
+Specs == TLCGet(1)
 N == Len(Specs) * 3
 
 SpecOf(j) == Specs[((j - 1) \div 3) + 1]
